@@ -100,3 +100,22 @@ CHECKS["C07"] = dict(
     text="For every comment style class x {single, multi} where supported, CrossHair confirms over all paths that _create_new_header either raises CommentCreateError / MissingReuseInfoError or returns a header from which the tool's own reader yields exactly the requested copyright notice, licence expressions and (when rendered) contributor, for a request whose holder or contributor carries one free character (any code point but line breaks); representative styles are also explored under six template behaviours (default, dropping licences / copyright / contributors / everything, pre-commented), the copyright prefixes and year forms. Every entry of the extension and file-name tables is walked concretely and must map to one of the style classes covered.",
     note="The template is replaced by a Python model; its default variant is compared with the bundled default_template.jinja2 on 300 inputs per run (harness error on mismatch). ReuseInfo fields are list-backed sets so that symbolic strings are never hashed. Known finding: the post-render check uses 'and', so a header that reads back differently (template dropping one kind; holder ending like a terminator) is written and reported as success - carved out and re-established from a witness on the real code each run.",
 )
+
+CHECKS["C08"] = dict(
+    engine="XH+PYRE",
+    technique="symbolic execution (CrossHair + z3): solver-driven exhaustive exploration of file-body shapes through the real header placement code and add_header_to_file, judged by a reference decomposition",
+    text="For every comment style x {single, multi}, in replacing and --no-replace mode, and every body of 2 items (3 for eight representative styles; thorough 3/4) drawn from {blank, white space, code, indented code, own-style comment, foreign comment, an existing tool-written REUSE header, shebang-like first line, absent} with and without final newline, CrossHair confirms that the output's non-blank lines are the input's, in order, with exactly one contiguous block (the new header) inserted and at most the first REUSE comment block (minus shebang lines) removed, that shebang lines stay first and that the final newline is kept. At file level (add_header_to_file over an in-memory open) it confirms for LF/CRLF/CR x BOM x final newline that one line-ending convention is kept and that the file result equals the text-level result.",
+    note="After the solver fixes a body shape the text is concrete (patterns then run in the real re); the solver contributes exhaustive shape exploration. Known finding: a leading byte order mark does not stay first. Outside: mixed line endings, longer bodies.",
+)
+CHECKS["C09"] = dict(
+    engine="XH+PYRE",
+    technique="symbolic execution (CrossHair + z3) of one annotate step (real create_header / find_and_replace_header / add_new_header / merge) from every pre-state in the bound, postcondition: declared information only grows",
+    text="Histories are not explored: one inductive step. For every style x form, replace and --no-replace, with and without --merge-copyrights, and every body in the bound (including a header the tool itself wrote earlier at the top, in the middle or after a shebang), CrossHair confirms that the tool's own reader yields after the step a superset of what it yielded before plus the requested copyright notice, licence expression and contributor. The post-state is again a tool-written header, so the step covers sequences of such steps.",
+    note="Pre-states are those the writer or the generated bodies produce; hand-edited header shapes are outside. Year-range arithmetic of merging is C20's. --skip-existing is file-level (C11).",
+)
+CHECKS["C10"] = dict(
+    engine="XH+PYRE",
+    technique="symbolic execution (CrossHair + z3): f(f(t)) == f(t) for the real find_and_replace_header over every body shape in the bound",
+    text="For every style x form and every body in the bound (as C08), CrossHair confirms that applying the real find_and_replace_header (with the real create_header and reader) twice with identical arguments gives the same text as applying it once - i.e. the tool finds the header it wrote and does not stack a second one.",
+    note="--no-replace is excluded (stacking is that option's documented meaning). Known finding: Julia with --multi-line never finds its own '#=' header (single-line '#' detection is tried first) and stacks headers.",
+)
